@@ -31,6 +31,26 @@ class BuiltinMixin:
     def b_spec_iff(self, fr, f, args, kw, node):
         return SBool(self.truthy(args[0]) == self.truthy(args[1]))
 
+    def b_spec_set_of(self, fr, f, args, kw, node):
+        seq = self.as_seq(args[0])
+        v = z3.Const('v!set', Val)
+        return SSet(z3.Lambda([v], z3.Contains(seq.t, z3.Unit(v))))
+
+    def b_spec_forall(self, fr, f, args, kw, node):
+        """forall(lambda v, w: P(v, w)): prover-only quantifier over all values (loop invariants, lemmas)"""
+        lam = args[0]
+        names = [a.arg for a in lam.node.args.args]
+        consts = [z3.Const(self.fresh('all_' + n), Val) for n in names]
+        env = dict(lam.closure)
+        env.update({n: SDyn(c) for n, c in zip(names, consts)})
+        from .interp_expr import Frame
+        self.specmode += 1
+        try:
+            body = self.truthy(self.eval(Frame(env, lam.mod, lam, lam.cls, lam.closure), lam.node.body))
+        finally:
+            self.specmode -= 1
+        return SBool(z3.ForAll(consts, body))
+
     def b_spec_ev(self, fr, f, args, kw, node):
         return SDyn(ev(self.to_val(args[0]), self.to_val(args[1])))
 
